@@ -164,6 +164,9 @@ def physical(P, S_prev, a, S):
     return out
 
 
+OBJECTIVE_HOLDS_ON_PREFIX = True  # the objective is a running quantity: valid after every step of a legal episode
+
+
 def objective(P, trace):
     """Tiles cleaned over the episode minus the step penalties (the docs' 'clean as many tiles as possible in
     a given time budget': defined for episodes ended by completion and by the time limit alike)."""
